@@ -429,7 +429,8 @@ func (s *Spec) EffectiveSecurity(sv *Service, m *Method) []*Requirement {
 func (s *Spec) AllErrors(sv *Service, m *Method) []*ErrorDecl {
 	seen := map[string]bool{}
 	var out []*ErrorDecl
-	for _, l := range [][]*ErrorDecl{m.Errors, sv.Errors, s.API.Errors} {
+	// API-level errors are reusable definitions: they apply only where a service or method names them
+	for _, l := range [][]*ErrorDecl{m.Errors, sv.Errors} {
 		for _, e := range l {
 			if !seen[e.Name] {
 				seen[e.Name] = true
